@@ -320,6 +320,56 @@ func runC18(r *core.Run) {
 				readerStopFrom(c.Format, mk), false, false)
 		})
 
+	type richStop struct {
+		Format    string `json:"format"`
+		Corpus    string `json:"corpus"`
+		SeekFails bool   `json:"seek_fails"`
+		Chunk     int    `json:"bytes_per_read"`
+	}
+	core.Clause(r, "readers-on-rich-sources", core.Opts{Rule: "the source offers more than Read (ReadByte/UnreadByte, WriteTo, Seek, ReadAt, Close, Len - what bytes.Reader, bufio.Reader and os.File offer), with a Seek that works and one that fails like a pipe's: every stop position behaves (exactly t callbacks, no panic, prefix of the uninterrupted run) and the source is never closed; every small and medium corpus file x {whole, 5 bytes per Read}; non-trivial = at least 2 items"},
+		func(emit func(richStop) bool) {
+			for _, f := range formats {
+				for _, size := range []string{"small", "medium"} {
+					for i := range corpus(f.Name, size) {
+						for _, sf := range []bool{false, true} {
+							for _, ch := range []int{0, 5} {
+								if !emit(richStop{f.Name, fmt.Sprint(size, "/", i), sf, ch}) {
+									return
+								}
+							}
+						}
+					}
+				}
+			}
+		},
+		func(c richStop) core.Outcome {
+			data := corpusBy(c.Format, c.Corpus)
+			var made []*envio.RichSource
+			mk := func() io.Reader {
+				s := &envio.RichSource{Data: data, SeekFails: c.SeekFails, Chunk: c.Chunk}
+				made = append(made, s)
+				return s
+			}
+			out := checkStops(fmt.Sprintf("%s.Reader on %s from a source that also offers ReadByte/WriteTo/Seek/ReadAt/Close (Seek fails: %v)", c.Format, c.Corpus, c.SeekFails),
+				readerStopFrom(c.Format, mk), false, errLastFormat(c.Format))
+			if out.Fail != "" {
+				return out
+			}
+			for _, s := range made {
+				if s.Closed > 0 {
+					return core.Failf("%s.Reader closed the caller's source (%s)", c.Format, c.Corpus)
+				}
+			}
+			// and the items are those of a plain source
+			f := formatByName(c.Format)
+			want, _ := refCached(f, c.Corpus, data)
+			got, p, _ := f.Read(&envio.RichSource{Data: data, SeekFails: c.SeekFails, Chunk: c.Chunk}, len(want)+8)
+			if p != "" || !sameShape(got, want) {
+				return core.Failf("%s.Reader on %s: from a source that also offers ReadByte/WriteTo/Seek/ReadAt the decode is %s (panic %q), from a plain reader %s", c.Format, c.Corpus, trunc(renderObs(got), 300), p, trunc(renderObs(want), 300))
+			}
+			return out
+		})
+
 	type transientStop struct {
 		Format string `json:"format"`
 		Corpus string `json:"corpus"`
